@@ -116,7 +116,7 @@ fn delete_hidden(nodes: &[Node], hidden: &HashSet<String>, strip_style_attr: boo
                         // DOM-level deletion: the neighbours of the deleted element
                         // stay separate nodes (a comment keeps adjacent text nodes
                         // from merging when the source is parsed again)
-                        out.push(Node::Comment("x".into()));
+                        out.push(Node::Comment("\u{0}deleted".into()));
                         continue;
                     }
                 }
@@ -133,7 +133,29 @@ fn delete_hidden(nodes: &[Node], hidden: &HashSet<String>, strip_style_attr: boo
             other => out.push(other.clone()),
         }
     }
-    out
+    // a placeholder is only needed (and only kept) between two text nodes
+    let textlike = |n: &Node| matches!(n, Node::Word(_) | Node::Space | Node::Raw(_));
+    let is_mark = |n: &Node| matches!(n, Node::Comment(c) if c.starts_with('\u{0}'));
+    let mut res: Vec<Node> = Vec::new();
+    let mut i = 0;
+    while i < out.len() {
+        if is_mark(&out[i]) {
+            let mut j = i;
+            while j < out.len() && is_mark(&out[j]) {
+                j += 1;
+            }
+            let prev_text = res.last().map(textlike).unwrap_or(false);
+            let next_text = out.get(j).map(textlike).unwrap_or(false);
+            if prev_text && next_text {
+                res.push(Node::Comment("x".into()));
+            }
+            i = j;
+        } else {
+            res.push(out[i].clone());
+            i += 1;
+        }
+    }
+    res
 }
 
 fn has_visible_text(dom: &ODom, id: odom::Id) -> bool {
@@ -164,6 +186,36 @@ fn run_case(seed: u64, idx: u64, _tier: Tier, out: &mut CaseOut) {
     p.a_name = true;
     p.max_blocks = 5;
     let mut doc = gen_doc(&mut rng, &p);
+    // a block whose children are all hidden, glued to inline text of its parent
+    // (<li>text<div><span style="display:none">x</span></div>more</li>): with its
+    // children gone the block has nothing to render and must leave no trace
+    if rng.chance(1, 4) {
+        let mut added = 0;
+        ast::for_each_el_mut(&mut doc, &mut |e| {
+            if added >= 2 || !matches!(e.tag.as_str(), "li" | "td" | "th" | "div" | "dd" | "blockquote") {
+                return;
+            }
+            let words: Vec<usize> = e.children.iter().enumerate().filter(|(_, n)| matches!(n, Node::Word(_))).map(|(i, _)| i).collect();
+            if words.is_empty() || !rng.chance(1, 2) {
+                return;
+            }
+            let wi = *rng.pick(&words);
+            let nkids = rng.range(1, 2);
+            let kids: Vec<Node> = (0..nkids)
+                .map(|k| {
+                    ast::El::with(*rng.pick(&["span", "em", "p", "div"]), vec![Node::Word(format!("Hid{}x{}", added, k))])
+                        .attr("data-h", "1")
+                        .node()
+                })
+                .collect();
+            let block = ast::El::with(*rng.pick(&["div", "p", "blockquote", "dl"]), kids).node();
+            // directly after the word (no white space in between), or directly before it
+            let at = if rng.chance(1, 2) { wi + 1 } else { wi };
+            e.children.insert(at, block);
+            added += 1;
+        });
+        out.count("all_hidden_blocks_next_to_text", added);
+    }
     // unique handle on every element
     let mut n = 0usize;
     ast::for_each_el_mut(&mut doc, &mut |e| {
@@ -242,6 +294,12 @@ fn run_case(seed: u64, idx: u64, _tier: Tier, out: &mut CaseOut) {
     // inline hiding on a few elements
     let mut inline: Vec<(String, bool)> = Vec::new(); // (data-u, none?)
     ast::for_each_el_mut(&mut doc, &mut |e| {
+        if e.get_attr("data-h").is_some() {
+            let u = e.get_attr("data-u").unwrap().to_string();
+            e.set_attr("style", "display:none");
+            inline.push((u, true));
+            return;
+        }
         if rng.below(100) < 4 {
             let u = e.get_attr("data-u").unwrap().to_string();
             let (style, none) = match rng.below(5) {
